@@ -87,4 +87,6 @@ class SimpleMatcher(BaseMatcher):
         else:
             result = self.obs_noise_dist.logpdf(dist) + self.obs_noise_logint
         # print("logprob_obs: {} -> {:.5f} = {:.5f}".format(dist, result, math.exp(result)))
+        # The normalised density is exp(-dist^2 / (2 sigma^2)) <= 1; the two logarithms can round to +1 ulp
+        result = min(result, 0.0)
         return result, {}
